@@ -37,7 +37,19 @@ func (g *Gen) strlit(s string) string {
 	return n
 }
 
+// unaliasDeep removes type aliases at the top and below pointers (btcec.KoblitzCurve = secp256k1.KoblitzCurve).
+func unaliasDeep(t types.Type) types.Type {
+	t = types.Unalias(t)
+	if p, ok := t.(*types.Pointer); ok {
+		if e := unaliasDeep(p.Elem()); e != p.Elem() {
+			return types.NewPointer(e)
+		}
+	}
+	return t
+}
+
 func (g *Gen) typeID(t types.Type) int {
+	t = unaliasDeep(t)
 	k := t.String()
 	if id, ok := g.typeIDs[k]; ok {
 		return id
